@@ -189,10 +189,12 @@ def strat_abort(tier):
     return st.fixed_dictionaries({
         "o": gen.optics(True, pol=st.just([1.0, 0.0])),
         "kind": st.sampled_from(["spheroid", "cylinder", "sphere"]),
-        "xv": st.one_of(gen.size_param(0.05, 8.0), gen.size_param(0.05, 8.0), gen.size_param(8.0, 30.0), gen.size_param(30.0, 3000.0)),
+        # "any size": up to sizes and indices at which 32-bit orders overflow (x ~ 1e9 .. 1e19, |m| up to 1e9), and down to 1e-12
+        "xv": st.one_of(gen.size_param(0.05, 8.0), gen.size_param(0.05, 8.0), gen.size_param(8.0, 30.0), gen.size_param(30.0, 3000.0),
+                        gen.logu(3e3, 1e19), gen.logu(1e-12, 0.05), st.sampled_from([2.0 ** 31, 2.9e18, 1e300])),
         # the property's aspect-ratio domain (spheroid 0.3-3; cylinders are clipped to 0.5-2 when built)
         "aspect": st.one_of(st.floats(math.log(0.3), math.log(3.0)).map(math.exp), st.sampled_from([1.0, 0.3, 3.0])),
-        "m": st.one_of(gen.rel_index(None, 0.5, 3.0), st.sampled_from([[1.0, 0.0], [1.5, 5.0], [10.0, 0.0]])),
+        "m": st.one_of(gen.rel_index(None, 0.5, 3.0), gen.rel_index(None, 0.5, 3.0), st.sampled_from([[1.0, 0.0], [1.5, 5.0], [10.0, 0.0], [1e9, 0.0], [1.5, 1e9], [1e4, 1e4], [1e-6, 0.0]])),
         "rot": st.tuples(_angle_any, _angle_any, _angle_any).map(list),
         "pts": _pts(4),
         "azimuth_exact": st.booleans(),
